@@ -11,7 +11,7 @@ UNITS = {'chm': dict(BASE, cxxflags=['-DHASHK=0'], threads={'vp_thr_ins': ['a', 
 # locks (unwinding assertions are on: a too small bound is reported as inconclusive, never as a pass); cbmc cannot fold
 # `is_valid(p)` (= address comparison) at symex time, so a large bound there multiplies infeasible paths.
 # harness loops and the 64-entry constructor loop get what they need.
-UNWINDSET = ','.join(['vp_m_ctor.%d:66' % i for i in range(3)] + ['%s.%d:4' % (f, i) for f in ('vp_m_count', 'vp_m_insert', 'vp_m_erase') for i in range(40)])
+UNWINDSET = ','.join(['vp_m_ctor.%d:66' % i for i in range(3)] + ['linearizable.%d:740' % i for i in range(12)] + ['%s.%d:4' % (f, i) for f in ('vp_m_count', 'vp_m_insert', 'vp_m_erase') for i in range(40)])
 # thread kind (vp_thr_<kind> in w_chm.cpp) -> history slots (op kind, index of the key argument)
 K_INSERT, K_ERASE, K_FIND, K_FINDW, K_INSERT_NOACC, K_COUNT, K_ERASE_ACC, K_INSERT_R = 1, 2, 3, 4, 5, 6, 7, 8
 KINDS = {'ins': [(K_INSERT, 0)], 'insr': [(K_INSERT_R, 0)], 'insn': [(K_INSERT_NOACC, 0)], 'era': [(K_ERASE, 0)], 'find': [(K_FIND, 0)],
@@ -49,42 +49,44 @@ def H(name, ta, tb, scen, tc=None, hashk=0, rounds=1, unroll=1, depth=1, grow=Fa
     if not grow: uo.update(noinline=['14enable_segmentEmb'], allow_atomic=[ENABLE_SEGMENT])
     h = dict(name=name, unit='chm', harness='h_chm.c', defines=defs, scenarios=[finish(x, kinds) for x in scen], unit_override=uo,
              cbmc=['--unwind', '14', '--unwindset', UNWINDSET, '--object-bits', '11'], timeout=timeout, desc=desc,
+             native_cflags=['-fno-sanitize=null'],   # replay build: thread-mode code forms &p->field from a not-yet-loaded (null) static temporary without accessing it
+
              bounds={'threads': len(kinds), 'ops_per_thread': max(len(KINDS[k]) for k in kinds), 'free_rounds': rounds, 'forced_rounds': 2, 'loop_unroll': unroll,
                      'rehash_recursion_depth': depth, 'hash': ['identity', 'constant', 'low-bits-collide'][hashk],
                      'table_growth': 'inside the threads (first growth 2 -> 256 buckets)' if grow else 'before the threads (pre-grown to 256 buckets)'})
     if tiers: h['tiers'] = tiers
-    if thorough:
-        # thorough tier of the same harness: deeper bounds, e.g. thorough=dict(rounds=2, unroll=2)
-        tr, tu = thorough.get('rounds', rounds), thorough.get('unroll', unroll)
-        h['thorough_override'] = dict(defines=dict(defs, ROUNDS=tr), unit_override=dict(uo, unroll=tu), timeout=thorough.get('timeout', 3600),
-                                      bounds=dict(h['bounds'], free_rounds=tr, loop_unroll=tu))
     h.update(kw)
-    return h
-T2 = dict(rounds=2, unroll=2)
-HARNESSES = [
-  dict(name='seg_contract', unit='seg', harness='h_seg.c', scenarios=[{'GROW2': 0}], scenarios_thorough=[{'GROW2': 0}, {'GROW2': 1}], cbmc=['--unwind', '300', '--object-bits', '10'], timeout=600,
+    out = [h]
+    for sfx, tk in (thorough or {}).items():     # deeper variants of the same scenarios, thorough tier only, own entry (exact bounds in evidence)
+        kw2 = dict(tc=tc, hashk=hashk, rounds=rounds, unroll=unroll, depth=depth, grow=grow, timeout=5400, desc=desc, tiers=['thorough']); kw2.update(tk); kw2.update(kw)
+        out += H(name + '_' + sfx, ta, tb, scen, **kw2)
+    return out
+R2 = {'r2': dict(rounds=2)}                              # 2 free rounds (every schedule with <= 3 context switches before the forced rounds)
+R2U2 = {'r2': dict(rounds=2), 'u2': dict(unroll=2)}      # + a variant with every loop unrolled twice (second chain node / second spin iteration inside one slice)
+HARNESSES = sum([
+  [dict(name='seg_contract', unit='seg', harness='h_seg.c', scenarios=[{'GROW2': 0}], scenarios_thorough=[{'GROW2': 0}, {'GROW2': 1}], cbmc=['--unwind', '300', '--object-bits', '10'], timeout=600,
        desc='real get_bucket/enable_segment/init_buckets: for every bucket number <= mask (symbolic) the bucket is the right slot of the right block, constructed unlocked with the rehash flag (contracts used by the sparse bucket model of the thread harnesses)',
-       bounds={'bucket number': 'all 0..255 (GROW2: 0..511)', 'segments': 'embedded + first block (+ segment 8)'}),
-  H('find_era', 'find', 'era', [S([I(2), C(2)], [2], [2])], thorough=T2, desc='find(const_accessor,k) || erase(k): accessor holder vs erase of the same element'),
-  H('era_era', 'era', 'era', [S([I(2), C(2)], [2], [2])], thorough=T2, desc='erase(k) || erase(k): exactly one true, node freed once'),
+       bounds={'bucket number': 'all 0..255 (GROW2: 0..511)', 'segments': 'embedded + first block (+ segment 8)'})],
+  H('find_era', 'find', 'era', [S([I(2), C(2)], [2], [2])], thorough=R2U2, desc='find(const_accessor,k) || erase(k): accessor holder vs erase of the same element'),
+  H('era_era', 'era', 'era', [S([I(2), C(2)], [2], [2])], thorough=R2U2, desc='erase(k) || erase(k): exactly one true, node freed once'),
   H('ins_ins', 'ins', 'ins', [S([I(3), C(2)], [2], [2], KX0=3)],
-    thorough=T2, desc='insert(accessor,k) || insert(accessor,k), bucket of k already rehashed: both start as bucket readers, both upgrade; exactly one true, the loser gets the winner\'s element'),
+    thorough=R2, desc='insert(accessor,k) || insert(accessor,k), bucket of k already rehashed: both start as bucket readers, both upgrade; exactly one true, the loser gets the winner\'s element'),
   H('insn_insn', 'insn', 'insn', [S([I(3)], [2], [2], KX0=3)],
-    thorough=T2, desc='insert(k) || insert(k), bucket of k still to be rehashed from its parent: contention on the try-acquired writer lock of the lazy rehash; exactly one true'),
+    thorough=R2, desc='insert(k) || insert(k), bucket of k still to be rehashed from its parent: contention on the try-acquired writer lock of the lazy rehash; exactly one true'),
   H('split', 'insn', 'find', [S([I(4)], [2], [4])],
-    thorough=T2, desc='insert(k) rehashing bucket 2 from parent bucket 0 || find(k2) rehashing bucket 4 from the same parent, k2=4 lives in the parent: two lazy splits of one chain'),
+    thorough=R2, desc='insert(k) rehashing bucket 2 from parent bucket 0 || find(k2) rehashing bucket 4 from the same parent, k2=4 lives in the parent: two lazy splits of one chain'),
   H('eacc_era', 'eacc', 'era', [S([I(2), C(2)], [2], [2])],
-    thorough=T2, desc='find(accessor,k) + erase(accessor) || erase(k): exactly one of the two erases returns true, the write accessor stays valid until erase(accessor) releases it'),
+    thorough=R2, desc='find(accessor,k) + erase(accessor) || erase(k): exactly one of the two erases returns true, the write accessor stays valid until erase(accessor) releases it'),
   H('findw_ins', 'findw', 'insr', [S([I(3), C(2)], [2], [2], KX0=3)],
-    thorough=T2, desc='find(accessor,k) || insert(const_accessor,k): reader/writer element lock exclusion on a freshly inserted element'),
+    thorough=R2, desc='find(accessor,k) || insert(const_accessor,k): reader/writer element lock exclusion on a freshly inserted element'),
   H('grow_race', 'insn', 'insn', [S([], [2], [3])], grow=True,
-    thorough=T2, desc='insert(k) || insert(k2) on the EMPTY map: both cross the load-factor threshold, exactly one wins the segment CAS and grows 2 -> 256 buckets; enable_segment interleaved store by store'),
-  H('grow_maskrace', 'insn_cnt', 'insn', [S([], [2, 2], [2])], grow=True, timeout=1800, thorough=dict(rounds=2, unroll=1),
+    thorough=R2, desc='insert(k) || insert(k2) on the EMPTY map: both cross the load-factor threshold, exactly one wins the segment CAS and grows 2 -> 256 buckets; enable_segment interleaved store by store'),
+  H('grow_maskrace', 'insn_cnt', 'insn', [S([], [2, 2], [2])], grow=True, timeout=1800, thorough=R2,
     desc='insert(k); count(k) [grows the table, then rehashes k out of bucket 0]  ||  insert(k) that read the old mask: check_mask_race must restart it; exactly one insert true, k linked once'),
   H('chain_const', 'era', 'insn', [S([I(7), C(7)], [7], [5])], hashk=1,
-    thorough=T2, desc='constant hash: erase(k) || insert(k2) in the same chain of the same bucket'),
+    thorough=R2U2, desc='constant hash: erase(k) || insert(k2) in the same chain of the same bucket'),
   H('chain_low', 'find', 'era', [S([I(6), C(6), I(5)], [6], [5], KX0=6)], hashk=2,
-    thorough=T2, desc='hashes collide in the low 8 bits: find(k) walking the 2-node chain || erase(k2) unlinking the head of that chain'),
+    thorough=R2U2, desc='hashes collide in the low 8 bits: find(k) walking the 2-node chain || erase(k2) unlinking the head of that chain'),
   # ---- thorough only
   H('find_maskrace', 'insn_find', 'insn_find', [S([], [4, 2], [2, 2])], grow=True, rounds=2, tiers=['thorough'], timeout=5400,
     desc='EMPTY map: A insert(k1) [wins the segment CAS, grows]; find(k)  ||  B insert(k); find(k): a find that read the old mask after insert(k) completed must restart (check_mask_race) when k has been rehashed out of bucket 0 meanwhile'),
@@ -94,11 +96,46 @@ HARNESSES = [
     desc='3 threads: insert(k) || insert(k) || erase(k)'),
   H('t3_find_era_ins', 'find', 'era', [S([I(2), C(2)], [2], [2], [2])], tc='insn', tiers=['thorough'], timeout=5400,
     desc='3 threads: find(const_accessor,k) || erase(k) || insert(k): erased element must not be destroyed under the accessor, re-insert creates a new element'),
-  H('ins_ins_const', 'ins', 'ins', [S([I(3), C(2)], [2], [2], KX0=3), S([I(3), C(3)], [5], [7], KX0=3)], hashk=1, tiers=['thorough'], thorough=T2,
+  H('ins_ins_const', 'ins', 'ins', [S([I(3), C(2)], [2], [2], KX0=3), S([I(3), C(3)], [5], [7], KX0=3)], hashk=1, tiers=['thorough'],
     desc='constant hash: insert(k)||insert(k) and insert(k1)||insert(k2) into one chain'),
-  H('ins_era_low', 'insn', 'era', [S([I(6), C(6), I(5)], [7], [6], KX0=5, KX1=6)], hashk=2, tiers=['thorough'], thorough=T2,
+  H('ins_era_low', 'insn', 'era', [S([I(6), C(6), I(5)], [7], [6], KX0=5, KX1=6)], hashk=2, tiers=['thorough'],
     desc='colliding low bits: insert(k3) at the head of a 2-node chain || erase of the tail node'),
+], [])
+MANIFEST = dict(
+  level_text='Bounded model checking of the real concurrent_hash_map code (lookup<insert/find/count>, bucket_accessor::acquire, lazy rehash_bucket, '
+             'check_mask_race/check_rehashing_collision, insert_new_node, enable_segment, internal_erase, exclude, accessor release, spin_rw_mutex) in 2-3 model '
+             'threads on tables prepared by real sequential operations: for concrete operation kinds and keys per scenario the SAT solver decides every interleaving '
+             '(context switch before every memory operation of the real code, R round-robin rounds + 2 forced rounds) for: linearizability of the recorded history '
+             'against a sequential map including the final content; exactly-one-winner of concurrent inserts/erases of one key; accessor/const_accessor exclusion and '
+             'no destruction of an element under an accessor (holder counters inside the real node, really freeing allocator stub, cbmc pointer checks); no key lost, '
+             'duplicated, misplaced or leaked at quiescence (white-box census); no lock left held; no thread spinning forever. Scenarios cover the first table growth '
+             '(2 -> 256 buckets) racing with inserts that read the old mask, two lazy splits of one parent chain, contention on the try-acquired rehash lock, '
+             'reader-to-writer bucket lock upgrades, erase by key vs erase by accessor, and identity / constant / low-bit-colliding user hashes.',
+  level_note='Bounds per scenario in evidence (2 threads, 1-2 operations per thread, R=1 free round and loop unroll 1 in quick; R=2, unroll 2, 3 threads, rehash '
+             'recursion depth 2 in thorough). Bucket storage is modelled sparsely: get_bucket/init_buckets are replaced by contract stubs (one object per reachable bucket '
+             'number, segment publication still checked through the real my_table load) and the real functions are checked against exactly that contract by a '
+             'sequential query for every bucket number <= mask. Sequential consistency only. Iterators/range/clear/rehash()/copy/swap, the second growth (256 -> 512), '
+             'the bounded back-off restart of lookup, >3 threads are outside. Trusted: clang-14 IR, tools/ir2c.py (+unrec.py, ptratom.py), cbmc.',
+)
+OUTSIDE = [
+  'more than 3 threads, more than 2 operations per thread, more than 4 distinct keys / 4 elements',
+  'table growth beyond the first one (mask 255 -> 511 needs 255 elements); only the growth 2 -> 256 buckets happens inside threads',
+  'lazy-rehash recursion deeper than 1 (quick) / 2 (thorough) unrehashed ancestors (deeper chains are cut by an assumption, keys are chosen so that none occurs)',
+  'the restart path of lookup after the bounded back-off on a busy element lock (needs >= 5 failed try_acquire re-entries: beyond the round bounds)',
+  'operations that rely on contiguous bucket storage: iterators, range(), clear(), rehash(), copy/move/swap, equal_range (sparse bucket model)',
+  'emplace / move-insert / transparent-key overloads (same lookup<> underneath), allocation failure, exceptions (compiled with -fno-exceptions)',
+  'weak memory (non-SC) behaviour, HTM-based mutexes (spin_rw_mutex only)',
+  'second and later iterations of chain walks inside one scheduling slice at unroll=1 (they cost a scheduling round; thorough runs unroll=2)',
 ]
-OUTSIDE = []
-STUBS = []
-ASSUMPTIONS = []
+STUBS = [
+  'r1::allocate_memory / r1::deallocate_memory: malloc / free of that size (nodes); bucket blocks get 8 bytes (never accessed in the sparse bucket model)',
+  'hash_map_base::get_bucket(h) [cut]: asserts the segment of h is published in my_table (real acquire load), returns the storage object of bucket h; a bucket number outside the keys\' reachable set is an assertion failure. Contract checked against the real function by harness seg_contract',
+  'hash_map_base::init_buckets(ptr,sz,is_initial) [cut]: constructs the sparse buckets standing for ptr[0..sz) with the real bucket constructor (lock free, chain = rehash_req_flag). Contract checked against the real function by harness seg_contract',
+  'vp_rec_limit: assume(false) at rehash recursion depth D+1',
+  'sched_yield / pause: scheduling hints (no-op)',
+]
+ASSUMPTIONS = [
+  'user hash/equality are pure functions of the key (hc_t); keys and operation kinds are concrete per scenario, only the schedule is symbolic',
+  'pre-states are produced by the real sequential insert/erase/count (results checked against a set model)',
+  'erase-by-accessor is specified as "true iff the key is present"; scenarios do not combine it with a concurrent re-insert of the same key',
+]
